@@ -21,10 +21,11 @@ ASSUMPTIONS = ["one helper process per helper program, no helper timeout configu
                "channel ids stay below 2^63 (the 64-bit request counter does not wrap)"]
 MANIFEST = {
     "engine": "e2e",
-    "text": "partial: the Lean model follows helperHandleRead / helperReturnBuffer / popRequest / submit-queue branch by branch (both the pinned behaviour and the two "
-            "candidate repairs, selected by flags dumped from the staged code); theorems: split_channel_id_counterexample and unterminated_id_assert_counterexample "
-            "(pinned behaviour violates the property), pop_only_on_stable_id / reads_can_be_merged (repaired behaviour: dispatch does not depend on fragmentation), "
-            "unknown_channel_never_applied, fifo_when_not_concurrent; the model is tied to the real helper.cc in-process (exact state and payload equality) and to the "
+    "text": "partial: the Lean model follows helperHandleRead / helperReturnBuffer / popRequest / submit-queue branch by branch (the behaviour before and after the "
+            "fixes ad6fd97 / 42be5de / e4eb057, selected by flags dumped by running the staged code); theorems for the tree as it is: reply_to_own_channel and "
+            "any_fragmentation_same_result (conforming helper output, every fragmentation, unbounded: every callback goes to the request waiting on the channel its line "
+            "names; splitting reads changes nothing), unknown_channel_never_applied, never_aborts (no bytes trip an assertion), fifo_when_not_concurrent; the pre-fix "
+            "behaviour is kept as labelled pre_fix_* counterexamples; the model is tied to the real helper.cc in-process (exact state and payload equality) and to the "
             "rebuilt squid end to end (url_rewrite and external_acl relay helpers, out-of-order answers, scripted fragmentation); the runtime behaviour the model "
             "cannot exhibit is the Comm event loop, process spawning and the HTTP side of the transactions",
     "note": "trusted: Lean kernel, python rig (origin/client/relay stubs), loopback sockets; not modelled: reply size limit, helper timeouts, several helper processes",
@@ -486,34 +487,8 @@ def tag(l, impl, model):
 # ------------------------------------------------------------------------------------------------- known findings
 
 def classify(l, impl, why):
-    try:
-        which, kind, conc, base, n, reads = parse(l)
-    except ValueError:
-        return None
-    stream = b"".join(reads)
-    if impl.startswith("abort"):
-        if "skip_==_0" in impl or "skip == 0" in impl or which == "E":
-            # a complete line whose channel id is not followed by whitespace or the terminator
-            lines, tail = split_lines(stream)
-            if conc and any(carried(ln)[0] is None for ln in lines) and b"\x00" not in stream:
-                return "C47-unterminated-id-assert"
-        if b"\x00" in stream and ("roffset" in impl or which == "E"):
-            return "C47-nul-assert"
-        return None
-    if not conc:
-        return None
-    # a read boundary inside or right after the digits of a channel id at the start of a line (nothing but the id so far)
-    p, split_id = 0, False
-    for r in reads[:-1]:
-        p += len(r)
-        s = stream.rfind(b"\n", 0, p) + 1
-        if re.fullmatch(rb"[ \t\x0b\x0c\r]*[+-]?[0-9]*", stream[s:p]) and p > s:
-            split_id = True
-    if split_id:
-        return "C47-split-channel-id"
-    lines, tail = split_lines(stream)
-    if any(carried(ln)[0] is not None and not (-INT_MAX - 1 <= carried(ln)[0] <= INT_MAX) for ln in lines + [tail]):
-        return "C47-channel-id-truncation"
+    """no known findings: the four defects found while building this check (known_findings.d/C47.json) are fixed in the tree
+    (ad6fd97, 42be5de, e4eb057); their witnesses stay in corpus/C47 as regression cases that must pass"""
     return None
 
 
